@@ -438,6 +438,18 @@ func genXR(r *Rand, tier string, emit func(string)) {
 			emit(fmt.Sprintf("xr stream=%s plain=%s ops=%s", hx(s), hx(p), ops))
 		}
 	}
+	// chunks whose compressed size straddles the 4096-byte reads of the inflater's
+	// bufio.Reader by 0..9 bytes: the sync marker is then split over two reads
+	for c := int64(4083); c <= 4092; c++ {
+		lvl := []int{0, 1, 6}[c%3]
+		s, p, err := buildXflate(xwCfg{level: lvl, chunk: c, index: 0}, []xwOp{{kind: 'W', data: r.Bytes(int(c) + 700)}})
+		if err != nil {
+			continue
+		}
+		for _, ops := range []string{"R:100000|R:100000|R:1", fmt.Sprintf("S:%d:0|R:50|R:100000|R:5", c-20), fmt.Sprintf("S:%d:0|R:9|S:-30:2|R:100", c)} {
+			emit(fmt.Sprintf("xr stream=%s plain=%s ops=%s", hx(s), hx(p), ops))
+		}
+	}
 	streams := genXrStreams(r, nStreams, 300)
 	for _, h := range fixed {
 		streams = append(streams, xrStream{stream: unhx(h)})
